@@ -65,6 +65,7 @@ class Run:
         self.w = e2e.World(self.specs)
         self.snoop = snoop
         self.kind = p["variant"].split("-")[0]
+        self.flags = {"vec": p.get("vec_enabled", True), "grp": p.get("grp_enabled", True)}
         if snoop:
             self.client = self.w.devices[1].snoop_device("DEV0")
             self.w.settle()
@@ -93,8 +94,10 @@ class Run:
             vec.state_ = op[1]
         elif o == "vec-enabled":
             vec.enabled = op[1]
+            self.flags["vec"] = op[1]
         elif o == "grp-enabled":
             g1.enabled = op[1]
+            self.flags["grp"] = op[1]
         elif o == "by-assign":
             g2 = DM.live_group(dev, spec["groups"][1])
             bv = g2.vectors["o"]
@@ -153,6 +156,14 @@ def judge(run, emitted_after_def=None):
         truths = run.truths()
     except DM.Missing as e:
         return [("declared-group-lost", "depth=%d" % p["depth"], str(e))]
+    # the driver's own .enabled must agree with the history of enabling operations (the truth below is read
+    # from the live driver, so a change that corrupts the flags themselves would otherwise go unnoticed)
+    wantflag = run.flags["vec"] and run.flags["grp"]
+    if truths[0]["TGT"]["enabled"] != wantflag:
+        fails.append(("enabled-flag", d0, "DEV0/TGT.enabled is %r, the operations performed imply %r" % (truths[0]["TGT"]["enabled"], wantflag)))
+    for vn, tv in truths[0].items():
+        if vn != "TGT" and not tv["enabled"]:
+            fails.append(("enabled-flag", d0 + ",bystander", "DEV0/%s became disabled" % vn))
     client = run.client
     want = set()
     for spec, t in zip(run.specs, truths):
